@@ -38,8 +38,9 @@ Definition gscalar_eqb (a b : gscalar) : bool :=
    3 Otto.ToValue        4 package ToValue                5 Object.Set / Object.Get on a script object
    6 argument of Value.Call handed back by an identity function
    7 struct field read by a script   8 element of a typed slice   9 value of a typed map
-   the reflect.Value branch of toValue is taken by 1 and 2 *)
-Definition is_refl (path : Z) : bool := (path =? 1) || (path =? 2).
+   10 / 11 / 12 struct field / slice element / map value of a NAMED scalar type
+   the reflect.Value branch of toValue is taken by 1, 2, 10, 11 and 12 *)
+Definition is_refl (path : Z) : bool := (path =? 1) || (path =? 2) || (10 <=? path).
 
 (* what can be told about a primitive from either side *)
 Inductive cv := CVUndef | CVNull | CVBool (b : bool) | CVNum (bits : Z) | CVStr (s : list Z) | CVOther.
@@ -238,7 +239,8 @@ Inductive case :=
 | CScript (path : Z) (g : gscalar) (ostr : list Z)
           (ty : ob Z) (eq sign bo : ob bool) (sx : option (ob (list Z)))
 (* Export of script data: via 0 = evaluated from source text, 1 = JSON.parse of its JSON text,
-   2 = Otto.Get after the script stored it in a global, 3 = handed to a Go function as call argument *)
+   2 = Otto.Get after the script stored it in a global, 3 = handed to a Go function as call argument,
+   4 / 5 = as 0 / 1 in a runtime whose Object.prototype and Array.prototype carry enumerable data *)
 | CExportTree (via : Z) (v : jv) (obs : ob gv)
 (* Export of an array after a history of script mutations *)
 | CExportHist (init : list (option jv)) (ops : list aop) (obs : ob gv)
@@ -262,6 +264,11 @@ Inductive case :=
    change of (deepest recursion reachable through Otto.Call, through a script, length of Error().stack)
    against the measurements taken before the history; lang: the same history made in-language *)
 | CDepthHist (limit : Z) (ops : list dop) (api lang : list Z)
+(* an object whose prototype chain carries enumerable data (how: 4 literal / 5 JSON.parse under a polluted
+   Object.prototype, 6 instance of a constructor with data on its prototype, 7 Object.create chain 1-3 deep;
+   inherited names may be shadowed by own ones): Export, Object.Keys() (sorted) and MarshalJSON (against the
+   in-language JSON.stringify) must show the OWN enumerable properties only *)
+| CProtoObj (how : Z) (own : list (list Z * jv)) (exp : ob gv) (keys : ob (list (list Z))) (json_same : ob bool)
 (* target 0 global name (Otto.Set/Get), 1 object property, 2 array index (Object.Set/Get) *)
 | CKindHist (target : Z) (ops : list khop) (obs : list (ob gscalar))
 (* ref: the same operation at rest (for Eval: the in-language eval in the same frame); reent: from the native
@@ -434,6 +441,13 @@ Definition verdict_callseq (steps : list cstep) (obs_api obs_lang : list (ob (li
 Definition verdict (c : case) : Z * Z :=
   match c with
   | CCallSeq steps a l => verdict_callseq steps a l
+  | CProtoObj _ own exp keys js =>
+      let m := of_res (export_m (JObj own)) in
+      let k := OVal (map fst own) in
+      judge (fun a b : ob gv * ob (list (list Z)) * ob bool =>
+               ob_eqb gv_eqb (fst (fst a)) (fst (fst b)) && ob_eqb zll_eqb (snd (fst a)) (snd (fst b)) &&
+               ob_eqb Bool.eqb (snd a) (snd b))
+            (exp, keys, js) (m, k, OVal true) (OVal (export_s (JObj own)), k, OVal true) 6
   | CKindHist _ ops obs =>
       let e := krun GNil ops in
       judge (list_eqb (ob_eqb gscalar_eqb))
